@@ -338,7 +338,8 @@ class ScalarToFile(Module):
                         tags.append(f"{s.tag}{list(it.multi_index)}")
                     it.iternext()
             else:
-                dat.append(s.state.__format__(self.format))
+                val = s.state.item() if hasattr(s.state, 'item') else s.state  # Also for arrays holding one value
+                dat.append(val.__format__(self.format))
                 if tags is not None:
                     tags.append(s.tag)
 
